@@ -10,7 +10,7 @@ namespace Acpi
 /-- `Checksum { value: u8 }` -/
 structure Cks where
   value : UInt8 := 0
-deriving Repr, DecidableEq
+deriving Repr, DecidableEq, Inhabited
 
 namespace Cks
 
